@@ -75,6 +75,17 @@ class Client:
             s[self.rng.randrange(n)] += 1
         return s
 
+    def state_arg(self, c, max_photons=2):
+        """Either a fresh occupation list or a State object from the pool
+        (reused as an argument any number of times)."""
+        w = self.w
+        if self.cfg.get("pool_states") and self.rng.random() < 0.5:
+            ok = [sid for sid, st in w.pool["st"].items()
+                  if len(st) == c.input_modes and st.n_photons <= max_photons]
+            if ok:
+                return {"st": self.pick(ok)}
+        return self.state_for(c, max_photons)
+
 
 class Builder(Client):
     name = "builder"
@@ -406,7 +417,27 @@ class Bystander(Client):
             and c.input_modes >= 1
             and herald_photons(c) <= 2)
         k = r.choice(["simulate", "display", "display", "sample", "sample",
-                      "reck", "read_u", "get_params", "prng", "convert"])
+                      "reck", "read_u", "get_params", "prng", "convert",
+                      "new_state", "tomo"])
+        if k == "new_state":
+            if not cfg.get("pool_states") or len(w.pool["st"]) >= 6 or not small:
+                return None
+            c = w.pool["c"][self.pick(small)]
+            return {"op": "new_state", "s": self.state_for(c, 2),
+                    "out": w.new_id("st")}
+        if k == "tomo":
+            if not cfg.get("tomo_bystander"):
+                return None
+            cands = self.any_circuits(
+                lambda cid, c: c.input_modes in (2, 4) and c.n_modes <= 8
+                and herald_photons(c) <= 2)
+            if not cands:
+                return None
+            cid = self.pick(cands)
+            kinds = ["state", "state", "li", "gf"]
+            if w.pool["c"][cid].input_modes == 4:
+                kinds = ["state", "state", "state", "li"]
+            return {"op": "bystander_tomo", "c": cid, "kind": r.choice(kinds)}
         if k == "prng":
             return {"op": "prng", "kind": r.choice(["draw", "seed", "npseed"]),
                     "k": r.randrange(1, 50)}
@@ -437,10 +468,10 @@ class Bystander(Client):
         c = w.pool["c"][cid]
         if k == "simulate":
             return {"op": "simulate", "c": cid,
-                    "inputs": [self.state_for(c, 2)]}
+                    "inputs": [self.state_arg(c, 2)]}
         if k == "sample":
             return {"op": "bystander_sample", "c": cid,
-                    "state": self.state_for(c, 2),
+                    "state": self.state_arg(c, 2),
                     "kind": r.choice(["sampler", "quick", "analyzer"]),
                     "seed": r.randrange(1000), "n": 20}
         # reck on lossless circuits only (documented)
